@@ -2,7 +2,8 @@
    Statements only; proofs are in Proofs/ScopeProofs.v.  The std module's names and signatures are
    Gen/GenC10Std.v, regenerated from semantic/std.prql (through prqlc's own parser) on every run.
 
-   The model (Model/Scope.v) restates Module::lookup / resolve_ident_core / apply_args_to_closure / fold_function;
+   The model (Model/Scope.v) restates Module::lookup / resolve_ident (enclosing modules) / resolve_ident_core /
+   apply_args_to_closure / fold_function / what lower_expr does with an Ident that has no target id;
    it is run against the implementation on generated well-scoped programs and on one scope-breaking edit at every
    applicable site (vplib/props/c10.py).  The resolver itself is validated per program, not proved. *)
 From Coq Require Import List NArith Bool Permutation.
@@ -107,12 +108,24 @@ Theorem c10_std_transforms_take_a_relation :
 Proof. vm_compute. reflexivity. Qed.
 Print Assumptions c10_std_transforms_take_a_relation.
 
+(* ---- a module or relation name where a value is required (repair a131b2a; was finding C10-F1) ----
+   A name that denotes a module (std, date, math, text, default_db, _param, a user module) or a relation variable
+   (let-table) is never a value: the reference is an error -- "expected a value, but found module" / "table variable
+   cannot be used as a scalar value", or ambiguous when the name denotes something else too.  Before a131b2a it
+   resolved to that declaration, carried no target id, and lower_expr's fallback sent the bare name to SQL. *)
+Theorem module_or_relation_name_is_not_a_value : forall sc n,
+  names_module_or_table sc n = true ->
+  lower_ref sc ([], n) = OErr ENotAValue \/ lower_ref sc ([], n) = OErr EAmbiguous.
+Proof. exact ScopeProofs.module_or_relation_name_is_not_a_value. Qed.
+Print Assumptions module_or_relation_name_is_not_a_value.
+
 (* ---- no silent passthrough ----
-   Full statement (FALSE of the faithful model and of the implementation, finding C10-F1):
+   Full statement (still FALSE of the faithful model and of the implementation, but only through finding C10-F2):
      forall sc n, scope_closed sc = true -> in_frames sc n = false -> lower_ref sc ([], n) <> OPassthrough
-   A name that is in no frame but denotes a module (std, date, math, text, that, default_db, _param, a user module) or a
-   relation variable resolves to that declaration, carries no target id, and lower_expr's fallback sends the bare name
-   to SQL. *)
+   The one reference left that reaches SQL unresolved is the bare name `that` outside a join condition: while the
+   arguments of a transform are resolved the root module holds an EMPTY module `that` (resolve_function_args shadows
+   it), the name resolves to it, and at lowering time that module is gone -- lower_expr sees neither a module nor a
+   relation type and falls back to passing `that` to SQL. *)
 
 Definition s_date : str := [100;97;116;101].
 Definition ex_scope : scope :=
@@ -121,13 +134,85 @@ Definition ex_scope : scope :=
 
 Theorem no_silent_passthrough_refuted :
   exists sc n, scope_closed sc = true /\ in_frames sc n = false /\ lower_ref sc ([], n) = OPassthrough.
-Proof. exists ex_scope, s_date. vm_compute. auto. Qed.
+Proof. exists ex_scope, s_that_name. vm_compute. auto. Qed.
 Print Assumptions no_silent_passthrough_refuted.
 
+(* every passthrough is that one: any identifier, qualified or not, in any scope *)
+Theorem passthrough_only_bare_that : forall sc id,
+  lower_ref sc id = OPassthrough -> fst id = [] /\ leqb (snd id) s_that_name = true /\ s_that sc = None.
+Proof. exact ScopeProofs.passthrough_only_bare_that. Qed.
+Print Assumptions passthrough_only_bare_that.
+
 Theorem no_silent_passthrough_partial : forall sc n,
-  names_module_or_table sc n = false -> lower_ref sc ([], n) <> OPassthrough.
+  leqb n s_that_name = false \/ s_that sc <> None -> lower_ref sc ([], n) <> OPassthrough.
 Proof. exact ScopeProofs.no_silent_passthrough_partial. Qed.
 Print Assumptions no_silent_passthrough_partial.
+
+(* the former witness of C10-F1 (`from t | select {a} | derive {x = date}`, date from the GENERATED std table) is an error now *)
+Example c10_ex_former_f1_witness :
+  lower_ref ex_scope ([], s_date) = OErr ENotAValue
+  /\ lower_ref ex_scope ([], s_std_name) = OErr ENotAValue
+  /\ lower_ref ex_scope ([], s_db_name) = OErr ENotAValue
+  /\ lower_ref ex_scope ([s_db_name], [98]) = OErr ENotAValue                    (* default_db.b *)
+  /\ lower_ref_in true ex_scope ([s_db_name], [98]) = OPassthrough               (* s"{default_db.b}": spliced, by design *)
+  /\ lower_ref_in true ex_scope ([], s_date) = OErr ENotAValue.                  (* a module is not spliced *)
+Proof. vm_compute. auto 10. Qed.
+
+(* ---- declarations inside modules: table references look at the enclosing modules first (repair d92afac) ---- *)
+
+(* anything but a relation variable found there makes the call an error (before: a database table of that name) *)
+Theorem enclosing_nonrelation_where_relation_rejected : forall ms id c f args named i k,
+  rel_enclosing (ms_mods ms) (shadowed (ms_scope ms)) (ms_cur ms) id = Some c ->
+  arg_kind_of c <> ARel ->
+  rel_arg_kind_m ms id = Some k ->
+  nth_error (fs_params f) i = Some PRel -> nth_error args i = Some k ->
+  length args = length (fs_params f) ->
+  exists e, apply_fn f args named = AErr e.
+Proof. exact ScopeProofs.enclosing_nonrelation_where_relation_rejected. Qed.
+Print Assumptions enclosing_nonrelation_where_relation_rejected.
+
+Theorem sibling_constant_where_relation_rejected : forall ms m cur n f args named i k,
+  ms_cur ms = m :: cur ->
+  mlookup (ms_mods ms) (shadowed (ms_scope ms)) (m :: cur, n) = [CRoot NValue] ->
+  rel_arg_kind_m ms ([], n) = Some k ->
+  nth_error (fs_params f) i = Some PRel -> nth_error args i = Some k ->
+  length args = length (fs_params f) ->
+  exists e, apply_fn f args named = AErr e.
+Proof. exact ScopeProofs.sibling_constant_where_relation_rejected. Qed.
+Print Assumptions sibling_constant_where_relation_rejected.
+
+Theorem sibling_table_is_a_relation : forall ms m cur n,
+  ms_cur ms = m :: cur ->
+  mlookup (ms_mods ms) (shadowed (ms_scope ms)) (m :: cur, n) = [CRoot NTable] ->
+  rel_arg_kind_m ms ([], n) = Some ARel.
+Proof. exact ScopeProofs.sibling_table_is_a_relation. Qed.
+Print Assumptions sibling_table_is_a_relation.
+
+Theorem sibling_shadows_in_value_position : forall ms m cur id r,
+  ms_cur ms = m :: cur ->
+  resolve_core_m (ms_mods ms) (ms_scope ms) ((m :: cur) ++ fst id, snd id) = r ->
+  (forall e, r <> RErr e) -> resolve_m ms id = r.
+Proof. exact ScopeProofs.sibling_shadows_in_value_position. Qed.
+Print Assumptions sibling_shadows_in_value_position.
+
+(* `module m { let k = 5  let r = (from t | select {a})  let q = (from k) }`: in q, `from k` is the constant (an
+   error), `from r` the sibling relation; before d92afac `from k` was the database table k.
+   `module m { let k = 5  module n { let q = (from k) } }`: m.n.k and n.k do not exist, the parent's m.k is never
+   tried (pop_front) -- `from k` is still the database table k (finding C10-F3). *)
+Definition ex_mods : list (list str * nkind) := [([[109]; [107]], NValue); ([[109]; [114]], NTable); ([[109]; [110]], NModule)].
+Definition ex_ms (cur : list str) : mscope :=
+  mkMScope (mkScope [(s_std_name, NModule); (s_db_name, NModule); ([109], NModule)] (mkFrame [] []) None [] std_names) cur ex_mods.
+
+Example c10_ex_module_sibling :
+  rel_arg_kind_m (ex_ms [[109]]) ([], [107]) = Some AScalar
+  /\ rel_arg_kind_m_before_d92afac (ex_ms [[109]]) ([], [107]) = Some ARel
+  /\ rel_arg_kind_m (ex_ms [[109]]) ([], [114]) = Some ARel
+  /\ rel_arg_kind_m (ex_ms [[109]]) ([], [122]) = Some ARel                      (* no such sibling: database table z *)
+  /\ rel_arg_kind_m (ex_ms []) ([[109]], [107]) = Some AScalar                   (* from m.k at the root *)
+  /\ rel_arg_kind_m (ex_ms [[109]; [110]]) ([], [107]) = Some ARel               (* C10-F3: the parent's constant is not seen *)
+  /\ lower_ref_m (ex_ms [[109]]) ([], [107]) = OValue
+  /\ lower_ref_m (ex_ms [[109]; [110]]) ([], [107]) = OErr EUnknown.             (* value position, same pop_front *)
+Proof. vm_compute. auto 10. Qed.
 
 (* ---- non-vacuity ---- *)
 
